@@ -102,6 +102,7 @@ def run(ctx):
         else:
             g = GO.group(rng)
         judge(ctx, g, seen)
+        ctx.remember(judge, ctx, g, seen)
         if len(ctx.samples) < 3 and len(g['contents']) == 2:
             ctx.samples.append({'group': g, 'forged': OB.encode_group(g).hex()})
     # real calls and originations: recorded arguments with their entrypoints, whole mainnet scripts with their storages
@@ -121,6 +122,7 @@ def run(ctx):
                 contents.append(o)
             ctx.count('corpus_groups')
             judge(ctx, {'branch': GO.group(rng, 1)['branch'], 'contents': contents}, seen)
+    ctx.run_again()
     for k in OB.TAGS:
         ctx.require('kind_' + k, 5)
     ctx.require('forge_calls', 100)
